@@ -19,18 +19,18 @@ import (
 func init() { register(&Scenario{ID: "C07", Run: runC07}) }
 
 type c07In struct {
-	idx      int
-	kind     string // iq / message / presence
-	typ      string
-	id       string
-	from     string
-	payload  string // q (registered with the mux variant) or z (unregistered)
-	xml      string
-	invoked  bool
-	prog     int
-	wrote    bool // the handler program wrote a matching top-level reply
-	hErr     bool
-	collide  bool
+	idx     int
+	kind    string // iq / message / presence
+	typ     string
+	id      string
+	from    string
+	payload string // q (registered with the mux variant) or z (unregistered)
+	xml     string
+	invoked bool
+	prog    int
+	wrote   bool // the handler program wrote a matching top-level reply
+	hErr    bool
+	collide bool
 }
 
 var c07Progs = []string{"nothing", "reply-result", "reply-error", "reply-emptyns", "other-id", "get-same-id", "set-same-id", "msg-then-reply", "reply-then-msg", "nested-iq", "presence-then-error-reply"}
